@@ -83,8 +83,8 @@ Theorem C08_patterns_exact :
 Proof. exact generated_patterns_exact. Qed.
 Print Assumptions C08_patterns_exact.
 
-(* A BLOCK'S RENDERING DOES NOT DEPEND ON THE BLOCKS THAT FOLLOW IT: if the block loop takes k blocks (line blocks and delimited
-   blocks: prefix_run) from the lines rd and the k-th ends before the end of rd, then from rd ++ suf it takes the same k blocks,
+(* A BLOCK'S RENDERING DOES NOT DEPEND ON THE BLOCKS THAT FOLLOW IT: if the block loop takes k blocks (line blocks, lists,
+   delimited blocks: prefix_run) from the lines rd and the k-th ends before the end of rd, then from rd ++ suf it takes the same k blocks,
    with the same output and the same session, leaving what was left followed by suf -- for every suffix -- and goes on from there *)
 Theorem C08_first_blocks_independent : forall fuel doc suf n rd s o rdk sk n',
   prefix_run fuel doc n rd s o rdk sk n' -> rdk <> [] ->
@@ -105,3 +105,9 @@ Theorem C08_delimited_block_local : forall fuel suf doc allowed cur rest o rd' s
   dblocks_render fuel doc (cur :: rest ++ suf) allowed s = Ok ((o, rd' ++ suf), s').
 Proof. exact dblocks_render_suffix. Qed.
 Print Assumptions C08_delimited_block_local.
+
+Theorem C08_list_block_local : forall fuel suf doc n cur rest o rd2 s s',
+  lists_render fuel doc n (cur :: rest) s = Ok ((o, rd2), s') -> rd2 <> [] ->
+  lists_render fuel doc n (cur :: rest ++ suf) s = Ok ((o, rd2 ++ suf), s').
+Proof. exact lists_render_suffix. Qed.
+Print Assumptions C08_list_block_local.
